@@ -1,4 +1,5 @@
 import Poupool.Properties.C07
+import Poupool.Properties.C06
 /-!
 # C12  Mode requests honour their preconditions; cover and pumps are sequenced
 * `open_needs_tank`: every row that opens the pool (destination `opening_*`, or `heating_delay_standby/overflow`)
